@@ -601,7 +601,10 @@ def run_parent(mod, tier, seed, nshards_override=None):
         'assumptions': list(mod.ASSUMPTIONS), 'wall_s': round(wall, 2), 'violations': viol_count,
     }
     # (VERIF_EVIDENCE_DIR: used by tools/seed_recheck.py only, so that a run against a changed scratch tree never overwrites evidence about /repo)
-    evp = os.path.join(os.environ.get('VERIF_EVIDENCE_DIR') or os.path.join(VERIF, 'evidence'), f'{mod.ID}.json')
+    evdir = os.environ.get('VERIF_EVIDENCE_DIR')
+    if not evdir and os.path.realpath(os.environ.get('VERIF_REPO', '/repo')) != os.path.realpath('/repo'):
+        evdir = os.path.join(VERIF, 'replays', '_evidence_of_runs_against_scratch_trees')     # never mistaken for evidence about /repo
+    evp = os.path.join(evdir or os.path.join(VERIF, 'evidence'), f'{mod.ID}.json')
     os.makedirs(os.path.dirname(evp), exist_ok=True)
     with open(evp + '.tmp', 'w') as f:
         json.dump(evidence, f, indent=1, default=repr)
